@@ -25,6 +25,10 @@ const (
 	// single left branch (highly unlikely), we can't ever go deeper than 31
 	// levels.
 	maxRecursion = 31
+
+	// SQLite's hard upper bound for the length of a string or blob
+	// (SQLITE_MAX_LENGTH can't be raised above this), and hence for a record.
+	maxPayload = 1<<31 - 1
 )
 
 // Iterate callback. Gets rowid and (possibly truncated) payload. Return true when done
@@ -483,7 +487,7 @@ func calculateCellInPageBytes(l int64, pageSize int, maxInPagePayload int) int {
 func parsePayload(l int64, c []byte, pageSize int, maxInPagePayload int) (cellPayload, error) {
 	overflow := 0
 	inPageBytes := calculateCellInPageBytes(l, pageSize, maxInPagePayload)
-	if l < 0 {
+	if l < 0 || l > maxPayload {
 		return cellPayload{}, ErrCorrupted
 	}
 
